@@ -149,6 +149,7 @@ type Enc struct {
 	qbound          []string // names of the quantifier variables whose body is being evaluated
 	dryCache        []dryCached
 	recGhost        map[string]bool
+	trustedClauses  []string // "trusted ensures" clauses of the function under verification (not checked)
 }
 
 func newEnc(P *Program, db *SpecDB, ti *TypeInfo) *Enc {
